@@ -21,6 +21,21 @@ def clampsum(xs, n):
 def bad_index(xs, n):
     return xs[n]
 
+def tally(labels, counters, n):
+    counters[:] = 0
+    for i in range(n):
+        counters[labels[i]] += 1
+    return counters
+
+def total(w, a, b):
+    t = 0.
+    for k in range(a, b):
+        t += w[k]
+    return t
+
+def pick_even(xs, n):
+    return [i for i in range(n) if xs[i] == 0]
+
 def unbound(flag):
     for i in range(3):
         if flag:
@@ -78,6 +93,78 @@ class Unbound(Contract):
         return dict(flag=v)
 
 
+class Tally(Contract):
+    """ghost counting function cnt with store / fill lemma instances: counters[c] = cnt(labels, c, i) is an inductive invariant"""
+    key, prop = "t.py::tally", "T"
+
+    def setup(self, E, v):
+        from . import counting
+        n, k = E.size("n"), E.size("k", 1)
+        lab, cn = E.nd("labels", (n,), "int"), E.nd("counters", (k,), "int")
+        i = z3.Int("ti")
+        E.assume(z3.ForAll([i], z3.Implies(z3.And(i >= 0, i < n), z3.And(lab.get(i) >= 0, lab.get(i) < k))))
+        return dict(labels=lab, counters=cn, n=n)
+
+    @staticmethod
+    def _inv(E, L, off=0):
+        from . import counting
+        q = z3.Int("tq")
+        lab, cn = L["labels"], L["counters"]
+        # prefix count: cnt over the first i labels, stepped by the lemma cnt(a, q, i+1) = cnt(a, q, i) + [a[i] = q]
+        i = z(L.i)
+        E.axiom(z3.ForAll([q], z3.Implies(i >= 1, counting.cntF(lab.cell.term, q, i) ==
+                                           counting.cntF(lab.cell.term, q, i - 1) + z3.If(lab.get(i - 1) == q, 1, 0))))
+        E.axiom(z3.ForAll([q], counting.cntF(lab.cell.term, q, z3.IntVal(0)) == 0))
+        return {"counters_count": z3.ForAll([q], z3.Implies(z3.And(q >= 0, q < z(cn.shape[0])), cn.get(q) == counting.cntF(lab.cell.term, q, i) + off))}
+    loops = {0: _inv.__func__}
+
+    def ensures(self, E, a, res, old):
+        from . import counting
+        q = z3.Int("tq2")
+        good = z3.ForAll([q], z3.Implies(z3.And(q >= 0, q < z(a.counters.shape[0])), a.counters.get(q) == counting.cntF(a.labels.cell.term, q, z(a.n))))
+        bad = z3.ForAll([q], z3.Implies(z3.And(q >= 0, q < z(a.counters.shape[0])), a.counters.get(q) == counting.cntF(a.labels.cell.term, q, z(a.n)) + 1))
+        return {"counts": good, "wrong_counts_plus_one": bad}
+
+
+class Total(Contract):
+    """ghost range sum psum with step / empty lemma instances"""
+    key, prop = "t.py::total", "T"
+
+    def setup(self, E, v):
+        n = E.size("n")
+        a, b = E.int("a"), E.int("b")
+        E.assume(z3.And(0 <= a, a <= b, b <= n))
+        return dict(w=E.nd("w", (n,)), a=a, b=b)
+
+    @staticmethod
+    def _inv(E, L):
+        from . import counting
+        counting.psum_step(E, L["w"], L["a"], L.i)
+        counting.psum_empty(E, L["w"], L["a"], L.i)
+        return {"partial": z(L["t"]) == counting.psum(L["w"], L["a"], L.i)}
+    loops = {0: _inv.__func__}
+
+    def ensures(self, E, a, res, old):
+        from . import counting
+        return {"sum": z(res) == counting.psum(a.w, a.a, a.b), "wrong_sum_one_more_term": z(res) == counting.psum(a.w, a.a, z(a.b) + 1)}
+
+
+class PickEven(Contract):
+    """filtered comprehension over a symbolic range = the mask ghost (rank / unrank / count)"""
+    key, prop = "t.py::pick_even", "T"
+
+    def setup(self, E, v):
+        n = E.size("n")
+        return dict(xs=E.nd("xs", (n,), "int"), n=n)
+
+    def ensures(self, E, a, res, old):
+        t = z3.Int("pt")
+        L = z(res.length)
+        return {"only_selected_positions_in_increasing_order": z3.ForAll([t], z3.Implies(z3.And(t >= 0, t < L), z3.And(
+            z(res.item(t)) >= 0, z(res.item(t)) < z(a.n), a.xs.get(z(res.item(t))) == 0, z3.Implies(t + 1 < L, z(res.item(t)) < z(res.item(t + 1)))))),
+            "wrong_every_position_selected": L == z(a.n)}
+
+
 def run_all():
     from .api import make_registry
     repo = _Repo()
@@ -87,6 +174,9 @@ def run_all():
         ClampSum: {"T.clampsum.post.wrong_positive"},
         BadIndex: {"T.bad_index.no-raise.IndexError"},
         Unbound: {"T.unbound.no-raise.UnboundLocalError"},
+        Tally: {"T.tally.post.wrong_counts_plus_one"},
+        Total: {"T.total.post.wrong_sum_one_more_term"},
+        PickEven: {"T.pick_even.post.wrong_every_position_selected"},
     }
     for cls, bad in expect.items():
         c = cls()
